@@ -18,6 +18,7 @@ import AHP.Lemmas.XPathOpt
 import AHP.Lemmas.XPathDoc
 import AHP.Lemmas.XPathPipeline
 import AHP.Lemmas.XPathParseSteps
+import AHP.Lemmas.XPathParseFuel
 import AHP.Gen.Tables
 namespace AHP.C14
 open AHP AHP.XPath
@@ -214,6 +215,18 @@ theorem text_evaluate_eq_denotation (st : Style) (d : Doc) (hp : PreOrder d) (ss
     simp only [SurfStep.toSStep, toPs_eq_map] at hp'
     obtain ⟨p, hpm, rfl⟩ := List.mem_map.1 hp'
     exact ⟨s, hsm, p, hpm, hev⟩
+
+/-- C14f, the fuel of the tokenizer model is never used up: for EVERY text (well-formed or not), the three loops
+    give the same answer with any amount of extra fuel as with the fuel their callers (`parseBody`, `parseSteps`,
+    `parseExpr`) start them with — every tokenizer hands back a strictly shorter text.  So `parseExpr s = none` never
+    means "out of fuel": it is the model's "the library raises". -/
+theorem tokenizer_fuel_suffices (s : Str) (k : Nat) :
+    loop nm (2 * s.length + 2 + k) .top (strip s) [] [] = loop nm (2 * s.length + 2) .top (strip s) [] [] ∧
+    parsePreds nm (s.length + 1 + k) (strip s) = parsePreds nm (s.length + 1) (strip s) ∧
+    parseSteps nm (s.length + 1 + k) (strip s) = parseSteps nm (s.length + 1) (strip s) := by
+  have hs := strip_length_le s
+  exact ⟨loop_fuel nm (strip s) _ (by omega) .top [] [] k, parsePreds_fuel_add nm _ (strip s) (by omega) k,
+    parseSteps_fuel_add nm _ (strip s) (by omega) k⟩
 
 /-- a layout that is nothing like the canonical one: tabs and spaces everywhere, upper-case words, single quotes
     (the `x` in its white space is not used) -/
